@@ -2,14 +2,14 @@ SPECIFICATION MCSpec
 CONSTANTS
   PermuteModules = FALSE
   MaxFields = 2
-  Addrs <- QAddrs
-  Sizes <- QSizes
-  Aligns <- QAligns
-  Palette = {"u16", "N", "arr32x0"}
-  Ptrs = {4}
+  Addrs <- T2Addrs
+  Sizes <- T1Sizes
+  Aligns <- T2Aligns
+  Palette <- T2Palette
+  Ptrs = {4, 8}
   WithVft = {FALSE, TRUE}
   WithPacked = {FALSE}
   Names = {"f"}
-INVARIANTS Inv_C01 Inv_C02 Inv_C03 Inv_RustDefined Replay
+INVARIANTS Inv_RustDefined Replay
 CHECK_DEADLOCK FALSE
 VIEW View
